@@ -1,5 +1,6 @@
 import QmiModel.Lemmas.C12
 import QmiModel.Lemmas.C12Conc
+import QmiModel.Lemmas.C12Calls
 /-!
 # C12 — context lifecycle: unique names, clean failure, stop reclaims everything
 
@@ -412,6 +413,156 @@ example : GoodP (prun Proc.init [.qstart true true true false [], .qstart true t
   simp only [List.mem_cons, List.not_mem_nil, or_false] at ho
   rcases ho with rfl | rfl | rfl | rfl | rfl | rfl <;> simp [Harmless]
 
+
+/-! ## calls through proxies racing `remove_rpc_object()` / `stop()` (manager and worker, all interleavings) -/
+
+open Mgr in
+/-- **No request is lost.**  Whatever the interleaving of any number of callers delivering requests to an object's
+manager (`handle_message`), the context thread stopping it (`_running = False` under `_stop_lock`, `shutdown()`), and
+the worker thread (execute, notice the shutdown, reject what is left, end): every delivered request is either still
+queued or has been answered, exactly once (a value, a delivery error raised to the caller, or an error reply); and once
+the worker has ended the queue is empty for good — so every delivered request *has* its answer: no caller waits on a
+dead worker. -/
+theorem no_request_lost (acts : List MAct) (s : MState) (h : mrun MState.init acts = some s) :
+    (s.fifo ++ s.answered.map Prod.fst).Perm s.delivered ∧ (s.answered.map Prod.fst).Nodup ∧
+    (s.exited = true → s.fifo = [] ∧ ∀ r ∈ s.delivered, ∃ a, (r, a) ∈ s.answered) := by
+  have hi := minv_run acts _ _ minv_init h
+  refine ⟨hi.account, ?_, ?_⟩
+  · have : (s.fifo ++ s.answered.map Prod.fst).Nodup := hi.account.nodup_iff.2 hi.nodup
+    exact (List.nodup_append.1 this).2.1
+  · intro he
+    have hf := hi.exit_empty he
+    refine ⟨hf, ?_⟩
+    intro r hr
+    have : r ∈ s.fifo ++ s.answered.map Prod.fst := hi.account.mem_iff.2 hr
+    rw [hf, List.nil_append, List.mem_map] at this
+    obtain ⟨⟨r', a⟩, hm, rfl⟩ := this
+    exact ⟨a, hm⟩
+
+open Mgr in
+/-- a call that reaches the manager after `stop()` has passed its first locked block fails **at once** (the delivery
+error is raised to the caller inside `handle_message`; nothing is queued) -/
+theorem late_call_refused_at_once (s : MState) (hr : s.running = false) (r : Nat) (hn : r ∉ s.delivered) :
+    ∃ s', mstep s (.deliver r) = some s' ∧ (r, Ans.refused) ∈ s'.answered ∧ s'.fifo = s.fifo := by
+  refine ⟨_, by simp only [mstep, hn, hr, if_false, Bool.false_eq_true]; rfl, ?_, rfl⟩
+  simp
+
+open Mgr in
+/-- `stop()` completes: once shutdown was requested the worker always has an enabled step, that step lowers the rank
+(what is left to do before `join()` returns), and no step of anybody else raises it (new deliveries are refused). -/
+theorem manager_stop_completes (acts : List MAct) (s : MState) (h : mrun MState.init acts = some s)
+    (hsd : s.shutdown = true) (hne : s.exited = false) :
+    (∃ a s', workerNext s = some a ∧ mstep s a = some s' ∧ s'.rank < s.rank) ∧
+    (∀ a s', mstep s a = some s' → s'.rank ≤ s.rank) := by
+  have hi := minv_run acts _ _ minv_init h
+  have hrun := hi.shut_stop hsd
+  constructor
+  · cases hseen : s.seen with
+    | false =>
+      refine ⟨.see, { s with seen := true }, by simp [workerNext, hne, hseen, hsd], by simp [mstep, hsd, hseen], ?_⟩
+      simp [MState.rank, hseen, hne]
+    | true =>
+      cases hf : s.fifo with
+      | nil =>
+        refine ⟨.exit, { s with exited := true }, by simp [workerNext, hne, hseen, hf], by simp [mstep, hseen, hne, hf], ?_⟩
+        simp [MState.rank, hseen, hne, hf]
+      | cons r t =>
+        refine ⟨.reject r, { s with fifo := t, answered := s.answered ++ [(r, .errorReply)] },
+          by simp [workerNext, hne, hseen, hf], by simp [mstep, hseen, hne, hf], ?_⟩
+        simp [MState.rank, hseen, hne, hf]
+  · intro a s' hs
+    cases a with
+    | deliver r =>
+      simp only [mstep] at hs
+      split at hs
+      · cases hs
+      · simp only [hrun, Bool.false_eq_true, if_false] at hs; cases hs; exact Nat.le_refl _
+    | stopFlag => simp [mstep, hrun] at hs
+    | shutdown => simp [mstep, hsd] at hs
+    | see =>
+      simp only [mstep] at hs
+      split at hs
+      · cases hs; simp only [MState.rank]; split <;> omega
+      · cases hs
+    | exec r =>
+      simp only [mstep] at hs
+      split at hs
+      · split at hs
+        · rename_i hd tl hf hc; cases hs; simp only [MState.rank, hf, List.length_cons]; omega
+        · cases hs
+      · cases hs
+    | reject r =>
+      simp only [mstep] at hs
+      split at hs
+      · split at hs
+        · rename_i hd tl hf hc; cases hs; simp only [MState.rank, hf, List.length_cons]; omega
+        · cases hs
+      · cases hs
+    | exit =>
+      simp only [mstep] at hs
+      split at hs
+      · cases hs; simp only [MState.rank]; split <;> omega
+      · cases hs
+
+open Mgr in
+example : ∃ s, mrun MState.init [.deliver 1, .deliver 2, .exec 1, .stopFlag, .deliver 3, .shutdown, .see, .reject 2, .exit] = some s ∧
+    s.exited = true ∧ s.answered = [(1, .value), (3, .refused), (2, .errorReply)] := ⟨_, rfl, rfl, rfl⟩
+
+open Mgr in
+/-- illustration (about this constant trace, not about the source): if the `_running` test stayed under `_stop_lock` but
+the push happened after releasing it, the schedule check(1) · stop · shutdown · worker ends · push(1) leaves request 1
+in the queue of a dead worker for ever — the interleaving the deterministic scheduler looks for in the real code. -/
+example : ∃ st, srun (MState.init, []) [.check 1, .act .stopFlag, .act .shutdown, .act .see, .act .exit, .push 1] = some st ∧
+    st.1.exited = true ∧ st.1.fifo = [1] ∧ st.1.answered = [] := ⟨_, rfl, rfl, rfl, rfl⟩
+
+/-! ## the two excluded misuses, precisely -/
+
+/-- **Misuse 1: a stop handler that raises a non-`Exception` `BaseException`.**  `stop()` of an active context then raises
+that exception *before* anything is torn down: the handlers up to and including the raising one have run, and object
+map, handler map, managers, threads, sockets and every lifecycle flag are exactly as before — the context keeps working.
+Because stop handlers can only be added, this stays so in every continuation: such a context can never be stopped. -/
+theorem base_handler_aborts_stop {c : Ctx} {i : Nat} (hb : firstBase c.stopH 0 = some i) (ops : List Op)
+    (ha : (run c ops).active = true) :
+    (step (run c ops) .stop).2 = .exc .base ∧
+    (step (run c ops) .stop).1.residue = (run c ops).residue ∧
+    (step (run c ops) .stop).1.flags = (run c ops).flags ∧
+    (step (run c ops) .stop).1.released = (run c ops).released := by
+  have h := firstBase_run hb ops
+  generalize run c ops = d at h ha
+  have e : stop { d with log := [] } = (stopAborted { d with log := [] }, .exc .base) := by
+    simp [stop, stopHead, ha, h]
+  show (stop { d with log := [] }).2 = _ ∧ (stop { d with log := [] }).1.residue = _ ∧
+    (stop { d with log := [] }).1.flags = _ ∧ (stop { d with log := [] }).1.released = _
+  rw [e]
+  simp only [stopAborted, h]
+  refine ⟨?_, ?_, ?_, ?_⟩ <;> first | rfl | trivial
+
+example : firstBase (run (Ctx.init false) [.start false false, .addH .ok, .addH .base]).stopH 0 = some 1 := by decide
+
+/-- **Misuse 2: `qmi.context().stop()` behind `qmi`'s back.**  The context itself is stopped cleanly — everything
+released exactly once, no thread, handler, name or socket left (`stop_releases_each_once`,
+`stop_ends_all_threads_and_connections` apply) — but the global still refers to it: from then on, in every
+continuation, `qmi.start()` and `qmi.stop()` both raise `QMI_UsageException` (the process cannot start a context through
+`qmi` any more), while nothing is leaked. -/
+theorem stopped_behind_qmis_back (p : Proc) (c : Ctx) (hc : p.single = some c) (hw : WF c) (ha : c.active = true)
+    (hu : c.used = true) (hb : firstBase c.stopH 0 = none) (ops : List POp) (v t tf uf : Bool) (peers : List Bool) :
+    (pstep p (.op .stop)).2 = .ok ∧ StoppedP (pstep p (.op .stop)).1 ∧
+    (pstep (prun (pstep p (.op .stop)).1 ops) (.qstart v t tf uf peers)).2 = .exc .usage ∧
+    (pstep (prun (pstep p (.op .stop)).1 ops) .qstop).2 = .exc .usage ∧
+    (∃ d, (prun (pstep p (.op .stop)).1 ops).single = some d ∧ d.residue = Residue.empty) := by
+  have h0 : WF { c with log := [] } := hw.congr rfl rfl rfl rfl rfl
+  have hs : Stopped (stop { c with log := [] }).1 := stopped_of_stop h0 ha hu hb
+  have e1 : (pstep p (.op .stop)).2 = .ok := by
+    simp only [pstep, pstep', Proc.clr, hc, Option.map_some, step]
+    rw [stop_ok h0 ha hb]
+  have e2 : StoppedP (pstep p (.op .stop)).1 := by
+    simp only [pstep, pstep', Proc.clr, hc, Option.map_some, step]
+    exact ⟨_, rfl, stopped_step (c := (stop { c with log := [] }).1) hs .removeForeign |> fun _ => by
+      have := hs; exact ⟨this.1, this.2, this.3, this.4, this.5, this.6, this.7⟩⟩
+  have h3 := stoppedP_prun e2 ops
+  refine ⟨e1, e2, (stoppedP_pstep h3 _).2 (Or.inl ⟨_, _, _, _, _, rfl⟩), (stoppedP_pstep h3 _).2 (Or.inr rfl), ?_⟩
+  obtain ⟨d, hd, hsd⟩ := h3
+  exact ⟨d, hd, by simp only [Ctx.residue, Residue.empty, hsd.h_empty, hsd.m_empty, hsd.map_empty, hsd.conns_empty, hsd.router_down]⟩
 
 /-! ## `stop()` racing `make_rpc_object()` from another thread (layer C, all schedules) -/
 
